@@ -106,6 +106,11 @@ bool BufferedFd::enable()
     if (sp_read_event_ != nullptr)
         sp_read_event_->enable();
 
+    //! 如果在 enable() 之前就有数据被 send() 进了发送缓冲，则要打开可写事件将它们发送出去。
+    //! 否则这些数据以及之后 send() 的数据将一直滞留在发送缓冲中
+    if (sp_write_event_ != nullptr && send_buff_.readableSize() > 0)
+        sp_write_event_->enable();
+
     state_ = State::kRunning;
 
     return true;
